@@ -67,6 +67,10 @@ func c14Tree(v, y string) core.Tree {
 		"rules/REQUEST-999-TWICE.conf": c14Fill(c14Markers+c14Markers+c14Legacy+c14Legacy, v, y),
 		"crs-setup.conf.example":       c14Fill(c14Legacy+c14Markers, v, y),
 		"rules/none.conf":              "# nothing to see\nSecRuleEngine On\n",
+		"plugins/year-only.conf":       c14Fill("# Copyright (c) 2021-{Y} CRS project. All rights reserved.\nSecRuleEngine On\n", v, y),
+		"setup-version-only.example":   c14Fill("SecAction \"id:900990,setvar:tx.crs_setup_version={D}\"\n", v, y),
+		"rules/signature-only.conf":    c14Fill("SecComponentSignature \"OWASP_CRS/{V}\"\n", v, y),
+		"rules/one-line.conf":          c14Fill("SecAction \"id:900990,ver:'OWASP_CRS/{V}',setvar:tx.crs_setup_version={D}\"\n", v, y),
 		"rules/commented.conf":         c14Fill(c14Commented+c14Markers+c14Commented, v, y),
 		"rules/nonl.conf":              strings.TrimSuffix(c14Fill(c14Legacy, v, y), "\n"),
 		"plugins/deep/nested/p.conf":   c14Fill(c14Markers, v, y),
